@@ -25,6 +25,7 @@ import ProfiVerif.Lemmas.DpLiveMasterRun
 import ProfiVerif.Lemmas.DpLiveNRun
 import ProfiVerif.Lemmas.DpLiveMismatch
 import ProfiVerif.Lemmas.DpLiveMismatch2
+import ProfiVerif.Lemmas.DpLiveNHist
 
 namespace PV.C07
 open PV PV.Dp PV.Live
@@ -420,6 +421,77 @@ theorem multi_live_from_everywhere {J : JointN} {ps : List Peripheral} {k : Nat}
   simp only [Option.some.injEq, Prod.mk.injEq] at h2
   rw [← h2.1] at h3
   exact h3
+
+/-! ### Several peripherals under faults: independence of the slots, any history -/
+
+/-- **multi_turn_any.**  One `transmit_telegram` of a master with `n` peripherals under ANY delivery fault
+(request lost, reply lost, reply replaced by any well-formed telegram) and an optional
+`request_diagnostics()` on any slot between request and reply: no panic, the master stays well-formed
+(`NGood`), and slot by slot the turn is a run of at most two environment steps of that slot's OWN pair
+(`StepShape`): a decline if the loop passed the slot, the visit with the turn's delivery for the slot whose
+request went out (and only that slot sees the delivery fault), a `diagReq` for the slot the user call aims
+at — every other slot is untouched.  A fault concerning slot `i` does not change slot `j ≠ i`. -/
+theorem multi_turn_any {J : JointN} {ps : List Peripheral} {k : Nat} (hN : NGood J ps k) {now : Int} (hnow : timeB now)
+    (mid : Option Nat) {d : Delivery} (hd : ∀ t, d = .sub t → RxOk t) :
+    ∃ J' o ps', J.turn now mid d = .ok J' o ∧ NGood J' ps' k ∧ J'.fp = J.fp ∧ ps'.length = ps.length ∧
+      ∀ l, l < ps.length → ∃ es, SlotRun J.fp ps J.ss ps' J'.ss l es ∧ StepShape ps mid d o l es :=
+  turnN_any hN hnow mid hd
+
+/-- **multi_projection.**  Any master-level history — turns with any delivery and mid-request user call at
+any in-range times, power cycles / fault reports / `request_diagnostics()` / output and input changes on any
+slots, interleaved arbitrarily — runs without panic, keeps the master well-formed with every pair good and
+within the joint invariant, and projects, for every slot, to a run of that slot's own pair (`PJ.run` of
+well-formed `PEnv` steps), so every per-pair theorem of this file applies to every slot. -/
+theorem multi_projection {J : JointN} {ps : List Peripheral} {k : Nat} (hN : NGood J ps k) (H : List NEnv)
+    (hw : ∀ e ∈ H, e.WellFormed) :
+    ∃ J' ps', J.mrun H = some J' ∧ NGood J' ps' k ∧ J'.fp = J.fp ∧ ps'.length = ps.length ∧
+      ∀ l, l < ps.length → ∃ es evs, (∀ e ∈ es, e.WellFormed) ∧
+        (pjAt J.fp ps J.ss l).run es = some (pjAt J.fp ps' J'.ss l, evs) := by
+  obtain ⟨J', ps', h1, h2, h3, h4, h5⟩ := multi_projection_aux H hw hN
+  refine ⟨J', ps', h1, h2, h3, h4, ?_⟩
+  intro l hl
+  obtain ⟨es, hwf, evs, hr⟩ := h5 l hl
+  exact ⟨es, evs, hwf, hr⟩
+
+/-- Start-up of a master with `n` peripherals: dense storage, Operate, cycle index at slot 0, distinct
+slave addresses, every pair good, fresh (`Initial`). -/
+structure NStart (J : JointN) (ps : List Peripheral) (k : Nat) : Prop where
+  slots : J.m.slots = denseSlots ps k
+  op : J.m.op = .operate
+  len : J.ss.length = ps.length
+  n256 : ps.length ≤ 256
+  pos : 0 < ps.length
+  fpok : FpOk J.fp
+  cycle : J.m.cycle = .dx 0
+  good : ∀ l, l < ps.length → Good (pjAt J.fp ps J.ss l) ∧ Initial (pjAt J.fp ps J.ss l)
+  addr : ∀ l, l < ps.length → (J.ss.getD l default).cfg.address ≠ 127
+  distinct : ∀ l l', l < ps.length → l' < ps.length → l ≠ l' →
+    (J.ss.getD l default).cfg.address ≠ (J.ss.getD l' default).cfg.address
+  gc : J.m.lastGc = none
+
+theorem NStart.ngood {J : JointN} {ps : List Peripheral} {k : Nat} (h : NStart J ps k) : NGood J ps k :=
+  ⟨h.slots, h.op, h.len, h.n256, h.pos, h.fpok, Or.inr ⟨0, h.cycle, h.pos⟩,
+   fun l hl => ⟨(h.good l hl).1, jinv_initial (h.good l hl).2⟩, h.addr, h.distinct,
+   by intro t ht; rw [h.gc] at ht; cases ht⟩
+
+/-- **multi_live_after_any_history.**  A master with `n` peripherals (slots `0 … n-1`), each with its own
+healthy reference slave and matching configuration: from start-up, after ANY master-level history (faults
+and user calls interleaved arbitrarily across the peripherals, broadcasts anywhere), every fault-free
+continuation has ALL peripherals `is_running()` once it contains `(max_retry_limit + 8)(n + 1) + n`
+turns that are not broadcasts — and they stay so. -/
+theorem multi_live_after_any_history {J0 : JointN} {ps0 : List Peripheral} {k : Nat} (h0 : NStart J0 ps0 k)
+    (H : List NEnv) (hw : ∀ e ∈ H, e.WellFormed) :
+    ∃ J ps, J0.mrun H = some J ∧ NGood J ps k ∧
+      ∀ (nows : List Int), (∀ t ∈ nows, timeB t) →
+        ∃ J' os, ∃ ps' : List Peripheral, J.quietTurns nows = some (J', os) ∧ NGood J' ps' k ∧
+          (KN J0.fp ps0.length ≤ nonBroadcast os → ∀ l, l < ps0.length → (ps'.getD l default).isRunning = true) := by
+  obtain ⟨J, ps, h1, hN, hfp, hlen, _⟩ := multi_projection_aux H hw h0.ngood
+  refine ⟨J, ps, h1, hN, ?_⟩
+  intro nows ht
+  obtain ⟨J', os, ps', h2, hN', _, h3⟩ := multi_live_from_everywhere hN nows ht
+  refine ⟨J', os, ps', h2, hN', ?_⟩
+  intro hk l hl
+  exact h3 (by rw [hfp, hlen]; exact hk) l (by rw [hlen]; exact hl)
 
 /-! ## Outside the scope: a configuration that does not match
 
